@@ -1,7 +1,11 @@
 #!/bin/bash
 # Builds the verification framework from files on disk only (offline).
 set -e
-cd "$(dirname "$0")/harness"
+V="$(cd "$(dirname "$0")" && pwd)"
+cd "$V/harness"
 export CARGO_NET_OFFLINE=true
 cargo build --offline
 cargo build --offline --release
+# fuzz targets (thorough tier); a failure here only disables the fuzz part of the thorough tier
+(cargo +nightly fuzz build --fuzz-dir ../fuzz >/dev/null 2>&1 || echo "note: fuzz targets not built") 
+mkdir -p "$V/work" && ./target/debug/dnsverif dump-corpus "$V/work/corpus" >/dev/null 2>&1 || true
